@@ -628,7 +628,7 @@ func selftest(p *propCfg, n int) bool {
 				ok = false
 				continue
 			}
-			for _, l := range strings.Split(strings.TrimSpace(string(data)), "\n") {
+			for _, l := range strings.Split(strings.TrimRight(string(data), "\n"), "\n") {
 				f := strings.SplitN(l, " ", 2)
 				if len(f) == 2 {
 					i, _ := strconv.Atoi(f[0])
